@@ -248,7 +248,16 @@ def check_case(case):
             if r.status_code != 200:
                 vs.append(Violation("save-state:%d" % r.status_code, "save-state -> %d" % r.status_code))
                 return info, vs
-            app2 = BptkServer(__name__, bptk_factory=make_factory(start, stop, dt, made, two), external_state_adapter=adapter)
+            if case["path"].startswith("same-server"):
+                # the live instance moves on after the save (its session is ended, or a new one is begun - neither writes to
+                # the store); load-state on the same server must bring the saved session back
+                if case["path"] == "same-server-end":
+                    c.post("/%s/end-session" % iid)
+                else:
+                    c.post("/%s/begin-session" % iid, json={"scenario_managers": managers, "scenarios": [SC], "equations": ["f"]})
+                app2 = app
+            else:
+                app2 = BptkServer(__name__, bptk_factory=make_factory(start, stop, dt, made, two), external_state_adapter=adapter)
             app2.logger.disabled = True
             c2 = app2.test_client()
             r = c2.post("/load-state")
@@ -257,7 +266,7 @@ def check_case(case):
                 return info, vs
             im2 = app2._instance_manager
             if iid not in im2._instances:
-                vs.append(Violation("restore-missing:server:%s" % mode, "instance not present after server restart + load-state"))
+                vs.append(Violation("restore-missing:server:%s" % mode, "instance not present after %s + load-state" % case["path"]))
                 return info, vs
             after_state = norm_state(copy.deepcopy(im2._instances[iid]["instance"].session_state))
             after_res = json.loads(c2.get("/%s/session-results" % iid).data)
@@ -310,7 +319,7 @@ def case_strategy():
         "two": st.booleans(), "begin_settings": bset, "spare": st.sampled_from([False, False, True]),
         "ops": st.lists(op, min_size=1, max_size=7),
         "equations": eqs,
-        "compress": st.booleans(), "adapter": st.sampled_from(["file", "memory"]), "path": st.sampled_from(["instance", "server"])}).map(
+        "compress": st.booleans(), "adapter": st.sampled_from(["file", "memory"]), "path": st.sampled_from(["instance", "server", "server", "same-server-end", "same-server-begin"])}).map(
         lambda c: dict(c, managers=[SM, SM2] if c["two"] else [SM]))
 
 
